@@ -6,6 +6,7 @@ from ..cfg import cfg_of
 from .. import nf, lib
 from ..selftest import Mutant, Benign
 from . import _c04_flow as fl
+from . import _c09_eval as mev
 
 ID = 'C04'
 MF = 'mitxgraders/helpers/calc/mathfuncs.py'
@@ -96,6 +97,58 @@ def _norm_arg(idx, module, e):
     if isinstance(e, ast.Call) and isinstance(e.func, (ast.Attribute, ast.Name)) and _is_norm(idx, module, e.func) \
             and len(e.args) == 1 and not e.keywords:
         return e.args[0]
+    return None
+
+
+ENTRYWISE_CALLS = {'numpy.allclose', 'numpy.isclose', 'numpy.array_equal', 'numpy.array_equiv', 'math.isclose',
+                   'numpy.testing.assert_allclose'}
+ABS_CALLS = {'numpy.abs', 'numpy.absolute', 'numpy.fabs', 'abs'}
+MAX_CALLS = {'numpy.max', 'numpy.amax', 'numpy.nanmax', 'max'}
+ALL_CALLS = {'numpy.all', 'numpy.alltrue', 'all'}
+
+
+def _dotted(idx, module, func):
+    if isinstance(func, (ast.Attribute, ast.Name)):
+        return idx.dotted_of(module, func)
+    return None
+
+
+def _is_abs(idx, module, e):
+    return isinstance(e, ast.Call) and _dotted(idx, module, e.func) in ABS_CALLS and len(e.args) == 1
+
+
+def _entrywise_form(idx, module, leaf):
+    """Closed table of entrywise (per-entry / max-norm) closeness tests; a description or None."""
+    for n in ast.walk(leaf):
+        if isinstance(n, ast.Call) and _dotted(idx, module, n.func) in ENTRYWISE_CALLS:
+            return '%s compares entry by entry' % _dotted(idx, module, n.func).replace('numpy.', 'np.')
+    e = leaf
+    # all(|d| <= t)   /   (|d| <= t).all()
+    inner = None
+    if isinstance(e, ast.Call) and _dotted(idx, module, e.func) in ALL_CALLS and len(e.args) == 1:
+        inner = e.args[0]
+    elif isinstance(e, ast.Call) and isinstance(e.func, ast.Attribute) and e.func.attr == 'all' and not e.args:
+        inner = e.func.value
+    if inner is not None:
+        c = nf.canon(inner)
+        if isinstance(c, ast.Compare) and len(c.ops) == 1 and isinstance(c.ops[0], (ast.Lt, ast.LtE)) and \
+                (_is_abs(idx, module, c.left) or _is_abs(idx, module, c.comparators[0])):
+            return 'all(|difference| <= tolerance) tests every entry separately'
+    # max(|d|) <= t   /   |d|.max() <= t
+    if isinstance(e, ast.Compare) and len(e.ops) == 1 and isinstance(e.ops[0], (ast.Lt, ast.LtE)):
+        for side in (e.left, e.comparators[0]):
+            if isinstance(side, ast.Call) and _dotted(idx, module, side.func) in MAX_CALLS and len(side.args) >= 1 \
+                    and _is_abs(idx, module, side.args[0]):
+                return 'max(|difference|) is the max-norm'
+            if isinstance(side, ast.Call) and isinstance(side.func, ast.Attribute) and side.func.attr == 'max' and not side.args \
+                    and _is_abs(idx, module, side.func.value):
+                return '|difference|.max() is the max-norm'
+            # norm(d, np.inf)
+            if isinstance(side, ast.Call) and isinstance(side.func, (ast.Attribute, ast.Name)) and _is_norm(idx, module, side.func) \
+                    and (len(side.args) == 2 or any(k.arg == 'ord' for k in side.keywords)):
+                o = side.args[1] if len(side.args) == 2 else [k.value for k in side.keywords if k.arg == 'ord'][0]
+                if nf.match('np.inf', o) is not None or nf.match("float('inf')", o) is not None:
+                    return 'norm(difference, inf) is the max-norm'
     return None
 
 
@@ -202,7 +255,13 @@ def d1_within_tolerance(ctx, idx):
                 seen_abs = True
             got = _split_decision(idx, fi.module, leaf)
             if got is None:
-                if isinstance(leaf, ast.Constant):
+                ew = _entrywise_form(idx, fi.module, leaf)
+                if ew:
+                    r.violation(C + ': comparison [%s]' % tag, 'entrywise test instead of the norm of the difference (%s in `%s`): the '
+                                'tolerance is applied per entry (max-norm), so an array whose entries each miss by less than the '
+                                'tolerance is accepted although its Frobenius distance exceeds it (e.g. [3.09, 4.09] vs [3, 4] with '
+                                'tolerance 0.1)' % (ew, short(leaf, 90)), where, expected='norm(x - y) <= tolerance', found=unparse(leaf))
+                elif isinstance(leaf, ast.Constant):
                     r.violation(C + ': comparison [%s]' % tag, 'returns the constant %r instead of comparing' % leaf.value, where)
                 else:
                     r.undecided(C + ': comparison [%s]' % tag, 'decision expression not recognised: %s' % short(leaf), where)
@@ -583,6 +642,12 @@ def d3_consolidate(ctx, idx):
             raise AnalysisError('consolidate_results: unexpected parameters %s' % fi.params)
         p_res, p_ans, p_fail = ps
         loops = [l for l in lib.loops_of(fi.node)]
+        if not loops:
+            try:
+                _d3_model(r, fi, C, p_res, p_ans, p_fail)
+            except mev.Unsupported as e:
+                r.undecided(C + ': decision', 'loop-free form outside the supported model evaluation (%s)' % e, fi.loc)
+            return
         loops = [l for l in loops if isinstance(l, ast.For) and fl.mentions(l.iter, p_res)]
         if len(loops) != 1:
             raise AnalysisError('consolidate_results: expected exactly one loop over the results, found %d' % len(loops))
@@ -725,6 +790,87 @@ def d3_consolidate(ctx, idx):
                         lib.loc(fi, tail[0]))
         else:
             r.undecided(C + ': passing verdict', 'returned value not recognised: %s' % short(tail[0]), lib.loc(fi, tail[0]))
+
+
+def _d3_model(r, fi, C, p_res, p_ans, p_fail):
+    """Loop-free consolidate_results (filter/comprehension form): decide the verdict by evaluating the decision
+    paths over model inputs (1-3 results with ok in {True, False, 'partial'}, failable_evals 0-2)."""
+    import itertools
+    paths = nf.decision_paths(fi.node.body)
+    answer = {'ok': True, 'grade_decimal': 1, 'msg': 'well done', 'expect': 'x'}
+    pruned = {'ok': True, 'grade_decimal': 1, 'msg': 'well done'}
+
+    def rec(kind):
+        return {True: {'ok': True, 'grade_decimal': 1.0, 'msg': ''}, False: {'ok': False, 'grade_decimal': 0, 'msg': ''},
+                'partial': {'ok': 'partial', 'grade_decimal': 0.5, 'msg': ''}}[kind]
+    classes = {
+        'single sample, failing': [], 'single sample, agreeing': [], 'several samples, failures > failable_evals': [],
+        'several samples, failures <= failable_evals': [], "a 'partial' sample counts as a failure": [],
+        'the failing verdict is one of the failing results': [], 'no answer given (None)': []}
+    where = fi.loc
+    for n in (1, 2, 3):
+        for kinds in itertools.product([True, False, 'partial'], repeat=n):
+            for f in (0, 1, 2):
+                for ans in (answer, None):
+                    if ans is None and (n > 1 or f > 0):
+                        continue
+                    results = [rec(k) for k in kinds]
+                    env = {p_res: results, p_ans: ans, p_fail: f}
+                    taken = [p for p in paths if all(mev.ev(g, env) for g in p.guards)]
+                    if len(taken) != 1:
+                        raise AnalysisError('consolidate_results: %d decision paths match a model input' % len(taken))
+                    p = taken[0]
+                    if p.leaf.kind == 'raise':
+                        raise AnalysisError('consolidate_results: a model input raises')
+                    got = mev.ev(p.leaf.expr, env) if p.leaf.kind == 'ret' else None
+                    k = sum(1 for x in kinds if x is not True)
+                    must_fail = (n == 1 and k >= 1) or k > f
+                    is_failing_result = any(got is x for x in results if x['ok'] is not True)
+                    is_any_result = any(got is x for x in results)
+                    is_answer = got == (pruned if ans is not None else {'ok': True, 'grade_decimal': 1, 'msg': ''})
+                    desc = 'results ok=%s, failable_evals=%d' % (list(kinds), f)
+                    line = lib.loc(fi, p.leaf.stmt) if p.leaf.stmt is not None else fi.loc
+                    if ans is None:
+                        cls = 'no answer given (None)'
+                        okv = is_answer if not must_fail else is_failing_result
+                    elif n == 1:
+                        cls = 'single sample, failing' if k else 'single sample, agreeing'
+                        okv = is_failing_result if must_fail else is_answer
+                    else:
+                        cls = 'several samples, failures > failable_evals' if must_fail else 'several samples, failures <= failable_evals'
+                        okv = is_failing_result if must_fail else is_answer
+                    classes[cls].append((okv, desc, must_fail, got, line))
+                    if 'partial' in kinds and False not in kinds and kinds.count('partial') == 1 and f == 0 and ans is not None:
+                        classes["a 'partial' sample counts as a failure"].append((is_failing_result, desc, True, got, line))
+                    if must_fail and ans is not None:
+                        classes['the failing verdict is one of the failing results'].append(
+                            (is_failing_result or not is_any_result, desc, True, got, line))
+    for cls, items in classes.items():
+        bad = [it for it in items if not it[0]]
+        construct = C + ': decision [%s]' % cls
+        if not items:
+            r.undecided(construct, 'no model input falls into this class', where)
+        elif bad:
+            okv, desc, must_fail, got, line = bad[0]
+            if must_fail:
+                what = ("the response is NOT reported as failing (returned %s): %s" %
+                        ('the answer\'s credit' if isinstance(got, dict) and got.get('msg') in ('well done', '') and got.get('ok') is True
+                         else short_repr(got),
+                         'a single-sample grader must tolerate no failure, whatever failable_evals says' if cls.startswith('single')
+                         else 'more samples disagree than failable_evals allows'
+                         if not cls.startswith('the failing') else 'the verdict handed back is an agreeing sample'))
+            else:
+                what = 'the response is reported as failing (returned %s) although the number of failures is within failable_evals' \
+                       % short_repr(got)
+            r.violation(construct, 'for %s %s (%d of %d model inputs of this class differ)' % (desc, what, len(bad), len(items)), line,
+                        expected='failing result iff (len(results) == 1 and failures >= 1) or failures > failable_evals')
+        else:
+            r.ok(construct, '%d model inputs decided as required' % len(items), where)
+
+
+def short_repr(v):
+    t = repr(v)
+    return t if len(t) < 70 else t[:67] + '...'
 
 
 # ----------------------------------------------------------------------------- D4
@@ -1210,6 +1356,8 @@ def strip_tail_raise(fi):
 _FG_LOOP_HEAD = ("            funclist.update(func_samples[i])\n            varlist.update(var_samples[i])\n\n"
                  "            def scoped_eval(expression,")
 
+_CONS_LOOP = "        num_failures = 0\n        for result in results:\n            if result['ok'] != True:\n                num_failures += 1\n                if len(results) == 1 or num_failures > failable_evals:\n                    return result\n"
+
 MUTANTS = [
     # D1
     Mutant('tol-strict', MF, "    return np.linalg.norm(difference) <= tolerance\n\ndef is_nearly_zero",
@@ -1265,6 +1413,18 @@ MUTANTS = [
     Mutant('compare-before-increment', MH, "                num_failures += 1\n                if len(results) == 1 or num_failures > failable_evals:\n                    return result\n",
            "                if len(results) == 1 or num_failures > failable_evals:\n                    return result\n                num_failures += 1\n", 'D3'),
     Mutant('skip-first-result', MH, "        for result in results:\n            if result['ok'] != True:", "        for result in results[1:]:\n            if result['ok'] != True:", 'D3'),
+    Mutant('seeded-filter-form-without-single-sample-clause', MH, _CONS_LOOP,
+           "        failures = [result for result in results if result['ok'] != True]\n        if len(failures) > failable_evals:\n"
+           "            return failures[failable_evals]\n", 'D3'),
+    Mutant('filter-form-partial-passes', MH, _CONS_LOOP,
+           "        failures = [result for result in results if result['ok'] == False]\n"
+           "        if failures and (len(results) == 1 or len(failures) > failable_evals):\n            return failures[0]\n", 'D3'),
+    Mutant('seeded-entrywise-allclose', MF, "    return np.linalg.norm(difference) <= tolerance\n\ndef is_nearly_zero",
+           "    return np.allclose(difference, 0, rtol=0, atol=tolerance)\n\ndef is_nearly_zero", 'D1'),
+    Mutant('entrywise-all-abs', MF, "    return np.linalg.norm(difference) <= tolerance\n\ndef is_nearly_zero",
+           "    return bool(np.all(np.abs(difference) <= tolerance))\n\ndef is_nearly_zero", 'D1'),
+    Mutant('entrywise-max-abs', MF, "    return np.linalg.norm(difference) <= tolerance\n\ndef is_nearly_zero",
+           "    return np.max(np.abs(difference)) <= tolerance\n\ndef is_nearly_zero", 'D1'),
     # D4
     Mutant('credit-multiplication-dropped', FG, "            result['grade_decimal'] *= answer['grade_decimal']\n", "            pass\n", 'D4'),
     Mutant('credit-added', FG, "            result['grade_decimal'] *= answer['grade_decimal']\n", "            result['grade_decimal'] += answer['grade_decimal']\n", 'D4'),
@@ -1309,6 +1469,10 @@ BENIGN = [
            "            for key in var_blacklist:\n                del varlist[key]\n            self.log('evaluating student input')\n\n            student_eval, meta"),
     Benign('credit-explicit-product', FG, "            result['grade_decimal'] *= answer['grade_decimal']\n",
            "            result['grade_decimal'] = answer['grade_decimal'] * result['grade_decimal']\n"),
+    Benign('consolidate-filter-form', MH, _CONS_LOOP,
+           "        failures = [result for result in results if result['ok'] is not True]\n"
+           "        if failures and (len(results) == 1 or len(failures) > failable_evals):\n"
+           "            return failures[0 if len(results) == 1 else failable_evals]\n"),
     Benign('tolerance-any-order', MH, "        Required('tolerance', default='0.01%'): Any(PercentageString, NonNegative(Number)),",
            "        Required('tolerance', default='0.01%'): Any(NonNegative(Number), PercentageString),"),
 ]
